@@ -238,7 +238,7 @@ Definition pp : text := [43; 43].  Definition mm : text := [45; 45].
 Definition mk_idx_pkg (opc raw : N) (choices : list N) (add : value) (size mx : N) (needs : bool) : res codepkg :=
   do ov <- numv opc; do pv <- numv raw;
   Ok {| cp_op := ov; cp_addr := VNone; cp_post := pv; cp_add := add; cp_size := size; cp_needs := needs;
-        cp_choices := choices; cp_max := mx |}.
+        cp_choices := choices; cp_max := N.max size mx |}.
 
 (* IndexedOperand.translate (indirect = false) and the general path of
    ExtendedIndexedOperand.translate (indirect = true) *)
